@@ -825,6 +825,9 @@ class Engine:
                 r = z3.BoolVal(a.ident == b.ident)
             elif isinstance(a2, VConst) and isinstance(b2, VConst):
                 r = z3.BoolVal(a2.py == b2.py)
+            elif self.spec_mode and ((isinstance(a2, VAny) and isinstance(b, VRef)) or (isinstance(b2, VAny) and isinstance(a, VRef))):
+                # identity of an untyped result with a heap object: left open (an unconstrained proposition)
+                r = fresh("same_object", B)
             else:
                 raise Unsupported(f"`is` between {a2!r} and {b2!r}")
             return r if isinstance(op, ast.Is) else Not_(r)
@@ -1083,7 +1086,7 @@ class Engine:
             j = self.norm_index(i, L)
             if not self.spec_mode:
                 self.implicit_error(st, z3.And(0 <= j, j < L), "IndexError", node, "index")
-            if base.kind == "str":
+            if base.kind in ("str", "clist"):
                 return [(st, VSeq(IS.unit(IS.at(base.t, j)), "str"))]
             return [(st, VInt(IS.at(base.t, j)))]
         if isinstance(base, VList):
@@ -1246,16 +1249,24 @@ class Engine:
                 continue
             if not isinstance(src, VSeq):
                 raise Unsupported(f"list comprehension over {src!r}")
+            src = self.named(s, src, "src")       # the source occurs in a pattern
             i = fresh("i", I)
             s2 = s.fork()
             s2.env[tgt] = VInt(IS.at(src.t, i)) if src.kind != "str" else VSeq(IS.unit(IS.at(src.t, i)), "str")
             elt = self.ev1(e.elt, s2)
+            out_kind = "ilist"
+            if isinstance(elt, VSeq) and elt.kind == "str" and z3.is_app(elt.t) and elt.t.decl().name() == IS.unit(z3.IntVal(0)).decl().name():
+                # every element is a one-character string chr(...): a list of characters
+                elt, out_kind = VInt(elt.t.arg(0)), "clist"
             if not isinstance(elt, VInt):
                 raise Unsupported("list comprehension with non-integer elements")
             r = fresh("comp", ISq)
             s.assume(IS.len(r) == IS.len(src.t),
                      z3.ForAll([i], z3.Implies(z3.And(0 <= i, i < IS.len(src.t)), IS.at(r, i) == elt.t),
-                               patterns=[IS.at(r, i), IS.at(src.t, i)]))
+                               patterns=[IS.at(r, i), IS.at(src.t, i)]))      # two alternative triggers
+            if out_kind == "clist":
+                out.append((s, VSeq(r, "clist")))
+                continue
             ident = f"list!{next(_ids)}"
             s.heap[ident] = VSeq(r, "ilist")
             out.append((s, VRef(ident, "list")))
